@@ -115,9 +115,15 @@ def generic_consumers(facts, entries):
 
 def prelude_producers(facts, entries):
     out = {}
+    from . import builder_sem
+    seqs = builder_sem.analyse_cached(facts, entries)
     for e in S.select(entries, "prelude", "producer"):
         b = e.body
         v = M.view(facts, b)
+        if seqs.get(e.id, (None, None))[0] is not None:
+            # decided over call sequences from default() (rules/builder_sem.py): nothing is assumed about how the builder keeps its state
+            out[e.id] = seqs[e.id]
+            continue
 
         def gb(I, st, args):
             st.events.append(("generic_build", [_d(I, st, a) for a in args]))
@@ -299,14 +305,21 @@ def generic_producers(facts, entries):
                     probs["plumb"].append("the core builder's payload is %s, not the JSON of build_payload_from_claims" % det.get("payload"))
                 if not rest or rest[0] != "key":
                     probs["plumb"].append("the core call receives %s instead of the key parameter" % (rest[:1],))
+                def nrm(x):
+                    # absent and empty are the same footer / assertion; how the core builder keeps it (Option or plain value) is its business
+                    x = str(x)
+                    if x in ("None", "''", "Some('')"):
+                        return "None"
+                    m_ = re.match(r"^Some\((.*)\)$", x)
+                    return "Some(%s)" % (m_.group(1) if m_ else x)
                 wantf = "Some(F)" if fsome else "None"
-                if (fsome or fnone) and det.get("footer") != wantf:
+                if (fsome or fnone) and nrm(det.get("footer")) != wantf:
                     probs["footer"].append("the core builder's footer is %s although the generic builder's is %s [%s]" % (det.get("footer"), wantf, cond))
                 if not (fsome or fnone):
                     probs["footer"].append("the generic builder's footer is not consulted before the core call [%s]" % cond)
                 if V in ("V3", "V4"):
                     wanta = "Some(A)" if asome else "None"
-                    if (asome or anone) and det.get("implicit_assertion") != wanta:
+                    if (asome or anone) and nrm(det.get("implicit_assertion")) != wanta:
                         probs["assertion"].append("the core builder's implicit assertion is %s although the generic builder's is %s" % (det.get("implicit_assertion"), wanta))
                     if not (asome or anone):
                         probs["assertion"].append("the generic builder's implicit assertion is not consulted before the core call")
@@ -376,10 +389,8 @@ def setters(facts):
         for o in outs:
             fv = o.state.symfields.get((me_v.id, field))
             fv = MD.deref(I, o.state, fv) if fv is not None else None
-            if optional:
-                good = isinstance(fv, A.Struct) and fv.variant == "Some" and _d(I, o.state, fv.fields.get("0")) == "X"
-            else:
-                good = fv is not None and _d(I, o.state, fv) == "X"
+            # the argument, kept as it is or wrapped in Some (either representation of "a footer was set")
+            good = fv is not None and ((isinstance(fv, A.Struct) and fv.variant == "Some" and _d(I, o.state, fv.fields.get("0")) == "X") or (not (isinstance(fv, A.Struct) and fv.adt == "core::option::Option") and _d(I, o.state, fv) == "X"))
             if not good:
                 probs.append("after the call .%s is %r, not the argument, when [%s]" % (field, fv, " & ".join(o.state.cond)[-120:]))
         fs = [Finding(r, not probs, b["id"], "setter stores its argument", "%s must store its argument in .%s on every path; %s" % (M.short(b["id"]), field, "; ".join(sorted(set(probs)))[:300]), v.file(), b["line"],
@@ -404,6 +415,8 @@ def setters(facts):
                         continue
                 clobbered.setdefault(k, repr(x)[:80])
         FRAME = {"footer": ("C05.R5",), "implicit_assertion": ("C06.R4",)}
+        # only what a token is made from / judged by: auxiliary fields (caches ..) are the business of the rules about them
+        clobbered = {k: x for k, x in clobbered.items() if k in ("footer", "implicit_assertion", "payload", "header", "claims", "claim_validators")}
         for k, what in sorted(clobbered.items()):
             for r in FRAME.get(k, ()) + ("C01.R7", "C02.R5"):
                 fs.append(Finding(r, False, b["id"], "setter overwrites .%s" % k, "%s must leave the %s set earlier untouched; afterwards it is %s" % (M.short(b["id"]), k, what), v.file(), b["line"]))
